@@ -24,6 +24,8 @@ type tokPerson struct {
 	surname []string
 	place   string
 	year    int
+	// noSurname: the primary name is a given name only
+	noSurname bool
 	// directPlace: the record carries "1 PLAC <place>" itself
 	directPlace bool
 	// variantOf: the events use a different spelling of this dead person's
@@ -76,7 +78,12 @@ func genLivingCase(prop, tier string, r *rand.Rand) *Case {
 			tp.given = append(tp.given, g)
 			tp.surname = append(tp.surname, s)
 			name := g + " /" + s + "/"
-			if r.IntN(5) == 0 {
+			if k == 0 && r.IntN(8) == 0 {
+				// a given name only (the surname token stays unused)
+				name = g
+				tp.noSurname = true
+			}
+			if r.IntN(5) == 0 && !tp.noSurname {
 				// a name suffix is part of the full name; it is tracked like
 				// a given name
 				sfx := newTok(r, &nt)
@@ -96,6 +103,15 @@ func genLivingCase(prop, tier string, r *rand.Rand) *Case {
 			tp.p.Events = append(tp.p.Events, Event{Tag: "BIRT", Date: exactDate(tp.year), Place: tp.place})
 			tp.p.Events = append(tp.p.Events, Event{Tag: "DEAT", Date: exactDate(tp.year + 40), Place: tp.place})
 		case 2: // dead by death event without any date
+			if r.IntN(2) == 0 {
+				// died young: without the death event the age rule would
+				// make them living
+				tp.role = "dead-young"
+				tp.year = ty - 40 - r.IntN(30)
+				tp.p.Events = append(tp.p.Events, Event{Tag: "BIRT", Date: exactDate(tp.year), Place: tp.place},
+					Event{Tag: "DEAT", Date: exactDate(tp.year + 5), Place: tp.place})
+				break
+			}
 			tp.role = "dead-by-empty-death"
 			tp.year = ty - 30
 			tp.p.Events = append(tp.p.Events, Event{Tag: "BIRT", Date: exactDate(tp.year)}, Event{Tag: "DEAT"})
@@ -175,7 +191,7 @@ func genLivingCase(prop, tier string, r *rand.Rand) *Case {
 			break
 		}
 		d := pick(r, dead)
-		if r.IntN(2) == 0 {
+		if r.IntN(2) == 0 && !tp.noSurname && !d.noSurname {
 			tp.surname[0] = d.surname[0]
 			tp.p.Names[0] = tp.given[0] + " /" + tp.surname[0] + "/"
 			tp.role += "+shared-surname"
@@ -322,6 +338,20 @@ func genLivingCase(prop, tier string, r *rand.Rand) *Case {
 		}
 	}
 
+	livingPtr := map[string]bool{}
+	for _, tp := range people {
+		if tp.living {
+			livingPtr[tp.p.Ptr] = true
+		}
+	}
+	for fi, f := range g.Families {
+		if f.Husb != "" && f.Wife != "" && livingPtr[f.Husb] && livingPtr[f.Wife] && r.IntN(2) == 0 {
+			// the marriage of two living people is their personal data
+			mt := newTok(r, &nt)
+			g.Families[fi].Events = []Event{{Tag: "MARR", Date: exactDate(ty - 10), Place: mt + "church, England"}}
+			g2.Families[fi].Events = []Event{{Tag: "MARR", Date: exactDate(ty - 12), Place: newTok(r, &nt) + "chapel, England"}}
+		}
+	}
 	c := &Case{Prop: prop, Engine: "publish", Docs: []string{g.Text(), g2.Text()}, Today: today}
 	cfg := &PublishCfg{Options: genPubOptions(r, []string{"hide", "placeholder"}), Jobs: pick(r, []int{1, 1, 2, 8})}
 	cfg.Options.MaxLivingAgeZero = maxAgeZero
@@ -337,6 +367,7 @@ func genLivingCase(prop, tier string, r *rand.Rand) *Case {
 		}
 		cfg.People = append(cfg.People, li)
 	}
+	editedAfter := false
 	// history: nothing, the same document with "show", or the D' document
 	v := PubVariant{Jobs: pick(r, []int{1, 2, 8}), Sim: GenSim(r), Prior: -1}
 	switch r.IntN(4) {
@@ -346,6 +377,31 @@ func genLivingCase(prop, tier string, r *rand.Rand) *Case {
 		po.Visibility = "show"
 		v.PriorOptions = &po
 		v.SameObject = r.IntN(2) == 0
+		if v.SameObject && r.IntN(2) == 0 {
+			// an edit that changes who is living, applied after the first
+			// publish: a death added to somebody living by age, or the death
+			// of a young dead person removed
+			var cands []int
+			for i, tp := range people {
+				if tp.role == "living-by-age" || tp.role == "dead-young" {
+					cands = append(cands, i)
+				}
+			}
+			if len(cands) > 0 {
+				i := pick(r, cands)
+				tp := people[i]
+				if tp.role == "living-by-age" {
+					v.Edits = []PubEdit{{Ptr: tp.p.Ptr, Op: "adddeath"}}
+					cfg.People[i].Living = false
+					cfg.People[i].Tokens = nil
+				} else {
+					v.Edits = []PubEdit{{Ptr: tp.p.Ptr, Op: "deldeath"}}
+					cfg.People[i].Living = true
+					cfg.People[i].Tokens = append([]string(nil), cfg.People[i].Names...)
+				}
+				editedAfter = true
+			}
+		}
 	case 1:
 		v.Prior = 1
 		po := genPubOptions(r, []string{"show"})
@@ -357,6 +413,7 @@ func genLivingCase(prop, tier string, r *rand.Rand) *Case {
 		}
 	}
 	cfg.Variants = []PubVariant{v}
+	cfg.EditedBetween = editedAfter
 	c.Publish = cfg
 	c.Sim = GenSim(r)
 	return c
@@ -447,6 +504,12 @@ func runLivingCase(t *testing.T, c *Case, cr *CaseResult) *CaseResult {
 		cr.Runs++
 		cr.count("history.prior_publish", 1)
 		cr.count("history.same_document_object", 1)
+		if len(v.Edits) > 0 {
+			// the document is edited through the API between the two
+			// publishes (cfg.People describes the state after the edits)
+			applyPubEdits(doc, v.Edits)
+			cr.count("history.edit_between_publishes", 1)
+		}
 		run, ok = runPublishDoc(t, cr, prop, doc, cfg.Options, cfg.Jobs, c.Sim, c.Today, nil)
 	} else {
 		if v.Prior >= 0 && v.Prior < len(c.Docs) && v.PriorOptions != nil {
@@ -513,6 +576,16 @@ func runLivingCase(t *testing.T, c *Case, cr *CaseResult) *CaseResult {
 					found = true
 				}
 			}
+			listed := false
+			for name, data := range run.files {
+				if pageKind(name) == "individual-list" && bytes.Contains(data, []byte(p.Names[0])) {
+					listed = true
+				}
+			}
+			if found && !listed {
+				cr.violate(prop+"/completeness", "non-living person is on no individual list page ("+cfg.Options.Visibility+")",
+					fmt.Sprintf("the name %q of non-living individual %s is on none of the individuals-*.html pages", p.Names[0], p.Ptr))
+			}
 			if !found {
 				cr.violate(prop+"/completeness", "non-living person has no page ("+cfg.Options.Visibility+")",
 					fmt.Sprintf("no generated page carries the name %q of non-living individual %s", p.Names[0], p.Ptr))
@@ -523,7 +596,7 @@ func runLivingCase(t *testing.T, c *Case, cr *CaseResult) *CaseResult {
 	// (3) hide: the site does not depend on living people's data. Compared
 	// across different schedules and jobs on purpose (C19 demands schedule
 	// independence).
-	if cfg.Options.Visibility == "hide" && len(c.Docs) > 1 {
+	if cfg.Options.Visibility == "hide" && len(c.Docs) > 1 && !cfg.EditedBetween {
 		other, ok2 := runPublish(t, cr, prop, c.Docs[1], cfg.Options, v.Jobs, v.Sim, c.Today, nil)
 		if ok2 && !outcomeViolation(cr, prop, &other.res, "publish hide (D')") {
 			if d := diffFiles(run.files, other.files); d != "" {
